@@ -167,3 +167,9 @@ Definition idx_ascii (lt : sty) (w : N) : Z := match lt with Int => signed32 w |
 (* the value the specification assigns to member m of a group whose common type is t, for record vals *)
 Definition member_value (ps : vprops) (vals : list N) (t : sty) (m : string) : result N :=
   match field_word ps vals m with Some (_, w) => mesh_value t w | None => Err ECrash end.
+
+(* a face of a face element with texture coordinates: 3 or 4 corners and twice as many coordinates *)
+Definition tex_face_ok (rs : list (sty * sty)) (ip tk : nat) (f : list (list N)) : Prop :=
+  Forall2 list_ok rs f /\
+  ((List.length (nth ip f []) = 3%nat /\ List.length (nth tk f []) = 6%nat) \/
+   (List.length (nth ip f []) = 4%nat /\ List.length (nth tk f []) = 8%nat)).
